@@ -1,4 +1,4 @@
-(* C20 - the handshake: in a quiescent history every midi-use-CC that reaches
+(* C20 - the handshake: in a nocross history every midi-use-CC that reaches
    the non-realtime side finds a queued address and carries a controller that
    is in no mapping entry there (so no controller ever has two entries) *)
 From Coq Require Import List ZArith Bool Lia.
@@ -485,6 +485,43 @@ Proof.
   cbn [map app trok]. rewrite IH, existsb_app. cbn. rewrite orb_true_r. reflexivity.
 Qed.
 
+(* no answering bind behind a foreign one *)
+Fixpoint baf (tg : list tag) : bool :=
+  match tg with
+  | [] => true
+  | TBf :: r => negb (existsb is_TBa r) && baf r
+  | _ :: r => baf r
+  end.
+
+Lemma baf_tail : forall t tg, baf (t :: tg) = true -> baf tg = true.
+Proof. intros t tg H. destruct t; cbn [baf] in H; try assumption. apply andb_true_iff in H. tauto. Qed.
+
+Lemma baf_app : forall a b, baf a = true -> baf b = true ->
+  (existsb is_TBf a = true -> existsb is_TBa b = false) -> baf (a ++ b) = true.
+Proof.
+  induction a as [| t a IH]; intros b Ha Hb Hx; [exact Hb |].
+  destruct t; cbn [app baf existsb is_TBf orb] in *; auto.
+  apply andb_true_iff in Ha. destruct Ha as [E T]. apply andb_true_iff. split.
+  - rewrite existsb_app. apply negb_true_iff in E. rewrite E, (Hx eq_refl). reflexivity.
+  - apply IH; auto.
+Qed.
+
+Lemma existsb_TBa_TRs : forall {X} (q : list X) t, is_TBa t = false ->
+  existsb is_TBa (map (fun _ => TR) q ++ [t]) = false.
+Proof. induction q as [| x q IH]; intros t Ht; cbn; [rewrite Ht; reflexivity | apply IH; exact Ht]. Qed.
+
+Lemma baf_TRs_f : forall {X} (q : list X), baf (map (fun _ => TR) q ++ [TBf]) = true.
+Proof. induction q as [| x q IH]; [reflexivity | exact IH]. Qed.
+
+Lemma chain_count : forall prev ch tg A, chain prev ch tg A -> zlen A = count_TBa tg.
+Proof.
+  unfold zlen, count_TBa. induction 1; cbn [filter is_TBa length]; try assumption; try reflexivity.
+  rewrite !Nat2Z.inj_succ. f_equal. assumption.
+Qed.
+
+Lemma chain_noTBa : forall prev ch tg A, chain prev ch tg A -> existsb is_TBa tg = false -> A = [].
+Proof. induction 1; cbn [existsb is_TBa orb]; intro E; auto; discriminate. Qed.
+
 (* ---- the invariant ----------------------------------------------------------- *)
 Section Handshake.
   Variable U : list Z.                        (* the controllers of the history *)
@@ -501,7 +538,8 @@ Section Handshake.
     g_rnodup : NoDup (mids (omap (rstorage r)));
     g_last : omap nst = lastm (omap (rstorage r)) cr;
     g_disj : forall x, In x (mids (omap (rstorage r))) -> ~ In x P;
-    g_quiet : existsb is_TBf tg = true -> P = [];
+    g_quiet : existsb is_TBf tg = true -> cn = [];
+    g_baf : baf tg = true;
     g_watch : wsim (watch r) tg = Some (zlen lq - zlen cn);
     g_trok : trok tg = true;
     g_wpos : 0 <= watch r
@@ -525,7 +563,7 @@ Section Handshake.
 
   (* a foreign bind is appended while nothing is pending *)
   Lemma GI_bind_f : forall nst lq r cn cr pend tg P A s,
-    GI nst lq r cn cr pend tg P A -> P = [] ->
+    GI nst lq r cn cr pend tg P A -> cn = [] ->
     incl (mids (mapping s)) (mids (omap nst)) -> NoDup (mids (mapping s)) ->
     GI (Some s) lq r cn (cr ++ [RBind s]) pend (tg ++ [TBf]) P A.
   Proof.
@@ -535,6 +573,7 @@ Section Handshake.
       constructor; [rewrite <- g_last0; assumption | assumption | constructor].
     - rewrite lastm_app. reflexivity.
     - intros _. exact HP.
+    - apply baf_app; [assumption | reflexivity | intros _; reflexivity].
     - rewrite wsim_app, g_watch0. reflexivity.
     - apply trok_app; [assumption | reflexivity].
   Qed.
@@ -548,6 +587,7 @@ Section Handshake.
     - rewrite <- (app_nil_r A). apply chain_app; [assumption | auto |]. repeat constructor.
     - rewrite lastm_app. assumption.
     - rewrite existsb_app. cbn. rewrite orb_false_r. assumption.
+    - apply baf_app; [assumption | reflexivity | intros _; reflexivity].
     - rewrite wsim_app, g_watch0. cbn [wsim]. f_equal. unfold zlen. rewrite app_length. cbn. lia.
     - apply trok_app; [assumption | reflexivity].
   Qed.
@@ -566,21 +606,29 @@ Section Handshake.
   Proof. induction q; intros; cbn; auto. Qed.
 
   Lemma GI_clear : forall nst lq r cn cr pend tg P A,
-    GI nst lq r cn cr pend tg P A -> P = [] ->
+    GI nst lq r cn cr pend tg P A -> cn = [] ->
     GI (Some empty_store) [] r cn (cr ++ map (fun _ => RUnwatch) lq ++ [RBind empty_store])
        pend (tg ++ map (fun _ => TR) lq ++ [TBf]) P A.
   Proof.
     intros nst lq r cn cr pend tg P A I HP. destruct I.
-    assert (Hcn : cn = []).
-    { rewrite HP in g_P0. symmetry in g_P0. apply app_eq_nil in g_P0. tauto. }
     constructor; try assumption.
     - rewrite !app_assoc. rewrite <- (app_nil_r A). apply chain_app; [apply chain_app_TRs; assumption | auto |].
       constructor; [intros x [] | constructor | constructor].
     - rewrite !app_assoc, lastm_app. reflexivity.
     - intros _. exact HP.
+    - apply baf_app; [assumption | apply baf_TRs_f | intros _; apply existsb_TBa_TRs; reflexivity].
     - rewrite wsim_app, g_watch0. subst cn. cbn [zlen length]. rewrite Z.sub_0_r.
       rewrite wsim_app, wsim_TRs by lia. cbn [wsim]. f_equal. unfold zlen. cbn. lia.
     - apply trok_app; [assumption | apply trok_TRs_f].
+  Qed.
+
+  (* as many pending controllers as answering binds in flight: no midi-use-CC is under way *)
+  Lemma GI_cn_nil : forall nst lq r cn cr pend tg P A,
+    GI nst lq r cn cr pend tg P A -> pend = count_TBa tg -> cn = [].
+  Proof.
+    intros nst lq r cn cr pend tg P A I E. destruct I.
+    pose proof (chain_count _ _ _ _ g_chain0) as C. subst P. unfold zlen in *.
+    rewrite app_length in g_pend0. destruct cn; [reflexivity | cbn [length] in g_pend0; lia].
   Qed.
 End Handshake.
 
@@ -588,7 +636,7 @@ End Handshake.
 Definition qstep (pend : Z) (ch : list tag) (e : event) (r : list obs) : option (Z * list tag) :=
   match e with
   | EMap _ _ | EUnmap _ _ | EClear =>
-      if existsb is_OB r && negb (pend =? 0) then None else Some (pend, ch ++ op_tags r)
+      if existsb is_OB r && negb (pend =? count_TBa ch) then None else Some (pend, ch ++ op_tags r)
   | ECC _ _ _ _ =>
       if existsb is_OU r then (if existsb is_TBf ch then None else Some (pend + 1, ch))
       else Some (pend, ch)
@@ -599,12 +647,12 @@ Definition qstep (pend : Z) (ch : list tag) (e : event) (r : list obs) : option 
              end
   end.
 
-Lemma quiescent_from_step : forall pend ch e es r rs,
-  quiescent_from pend ch (e :: es) (r :: rs) =
-  match qstep pend ch e r with Some (p', c') => quiescent_from p' c' es rs | None => false end.
+Lemma nocross_from_step : forall pend ch e es r rs,
+  nocross_from pend ch (e :: es) (r :: rs) =
+  match qstep pend ch e r with Some (p', c') => nocross_from p' c' es rs | None => false end.
 Proof.
-  intros. destruct e; cbn [quiescent_from qstep].
-  1-3: destruct (existsb is_OB r && negb (pend =? 0)); reflexivity.
+  intros. destruct e; cbn [nocross_from qstep].
+  1-3: destruct (existsb is_OB r && negb (pend =? count_TBa ch)); reflexivity.
   - destruct (existsb is_OU r); [destruct (existsb is_TBf ch) |]; reflexivity.
   - reflexivity.
   - destruct ch; reflexivity.
@@ -644,15 +692,16 @@ Section Step.
   Lemma G_op : forall nst lq r cn cr pend tg P A nst' out,
     GI U nst lq r cn cr pend tg P A ->
     storage_step nst out nst' ->
-    (existsb is_OB (map obs_of_rmsg out) && negb (pend =? 0) = false) ->
+    (existsb is_OB (map obs_of_rmsg out) && negb (pend =? count_TBa tg) = false) ->
     GI U nst' lq r cn (cr ++ out) pend (tg ++ out_tags out) P A.
   Proof.
     intros nst lq r cn cr pend tg P A nst' out I S Q.
     destruct S as [[-> ->] | [s' [-> [-> [Hi Hn]]]]].
     - cbn. rewrite !app_nil_r. exact I.
-    - cbn in Q. destruct (Z.eqb_spec pend 0) as [E | E]; [| discriminate].
+    - cbn [map obs_of_rmsg existsb is_OB orb andb] in Q.
+      destruct (Z.eqb_spec pend (count_TBa tg)) as [E | E]; [| discriminate].
       apply GI_bind_f with (nst := nst); try assumption.
-      rewrite (g_pend _ _ _ _ _ _ _ _ _ _ I) in E. unfold zlen in E. destruct P; [reflexivity | cbn in E; lia].
+      eapply GI_cn_nil; eassumption.
   Qed.
 
   Lemma existsb_OB_app : forall a b, existsb is_OB (map obs_of_rmsg (a ++ b)) =
@@ -672,7 +721,7 @@ Section Step.
       split; [repeat split; assumption |].
       unfold nrt_result in Hs. destruct (nrt_map (wn w) a c) as [[n' out] |] eqn:M; [| discriminate].
       inversion Hs; subst w' r; clear Hs. cbn [app] in Hq.
-      destruct (existsb is_OB (map obs_of_rmsg out) && negb (pend =? 0)) eqn:Q; [discriminate |].
+      destruct (existsb is_OB (map obs_of_rmsg out) && negb (pend =? count_TBa tg)) eqn:Q; [discriminate |].
       inversion Hq; subst p' tg'; clear Hq. rewrite op_tags_out.
       exists P, A. cbn [wn wr chN chR].
       destruct (map_fact _ _ _ _ _ M Nn) as [[-> ->] | [out0 [-> [LQ S]]]].
@@ -685,7 +734,7 @@ Section Step.
       split; [repeat split; assumption |].
       unfold nrt_result in Hs. destruct (nrt_unmap (wn w) a c) as [[n' out] |] eqn:M; [| discriminate].
       inversion Hs; subst w' r; clear Hs. cbn [app] in Hq.
-      destruct (existsb is_OB (map obs_of_rmsg out) && negb (pend =? 0)) eqn:Q; [discriminate |].
+      destruct (existsb is_OB (map obs_of_rmsg out) && negb (pend =? count_TBa tg)) eqn:Q; [discriminate |].
       inversion Hq; subst p' tg'; clear Hq. rewrite op_tags_out.
       exists P, A. cbn [wn wr chN chR].
       destruct (unmap_fact _ _ _ _ _ M Nn) as [LQ S]. rewrite LQ.
@@ -695,12 +744,12 @@ Section Step.
       cbn [nrt_clear nrt_result] in Hs. inversion Hs; subst w' r; clear Hs. cbn [app] in Hq.
       rewrite map_app, existsb_app in Hq. cbn [map obs_of_rmsg existsb is_OB] in Hq.
       rewrite orb_true_r in Hq. cbn [andb] in Hq.
-      destruct (Z.eqb_spec pend 0) as [E | E]; [| discriminate]. cbn [negb] in Hq.
+      destruct (Z.eqb_spec pend (count_TBa tg)) as [E | E]; [| discriminate]. cbn [negb] in Hq.
       inversion Hq; subst p' tg'; clear Hq.
       rewrite op_tags_clear.
       exists P, A. cbn [wn wr chN chR nstorage learnQ].
       apply GI_clear with (nst := nstorage (wn w)); try assumption.
-      rewrite (g_pend _ _ _ _ _ _ _ _ _ _ I) in E. unfold zlen in E. destruct P; [reflexivity | cbn in E; lia].
+      eapply GI_cn_nil; eassumption.
     - (* CC *)
       split; [repeat split; assumption |].
       destruct Hev as [HU Hpos]. set (id := cc_id par chan nrpn) in *.
@@ -737,6 +786,7 @@ Section Step.
           -- eapply g_disj0; eassumption.
           -- apply Hnot. exact Hx.
         * intro. congruence.
+        * assumption.
         * rewrite Hw. assert (NTR : ~ In TR tg).
           { intro HTR. apply (trok_in _ g_trok0) in HTR. congruence. }
           replace (watch (wr w) - 1) with (watch (wr w) + -1) by lia.
@@ -778,7 +828,8 @@ Section Step.
         * apply chain_app; [assumption | auto |].
           constructor; [rewrite <- g_last0; assumption | assumption | constructor].
         * rewrite lastm_app. reflexivity.
-        * rewrite existsb_app. cbn. rewrite orb_false_r. assumption.
+        * rewrite existsb_app. cbn. rewrite orb_false_r. intro E. apply g_quiet0 in E. discriminate.
+        * apply baf_app; [assumption | reflexivity | intro E; apply g_quiet0 in E; discriminate].
         * rewrite wsim_app, g_watch0. cbn [wsim]. f_equal. unfold zlen. cbn [length]. lia.
         * apply trok_app; [assumption | reflexivity].
     - (* deliver to RT *)
@@ -807,9 +858,11 @@ Section Step.
           -- eapply trok_tail; eassumption.
           -- destruct (Z.eqb_spec (watch (wr w)) 0); lia.
         * (* foreign bind: nothing is pending *)
-          assert (HP : A ++ chN w = []) by (apply g_quiet0; reflexivity).
-          assert (HA : A = [] /\ chN w = []) by (apply app_eq_nil in HP; exact HP).
-          destruct HA as [-> HN].
+          assert (HN : chN w = []) by (apply g_quiet0; reflexivity).
+          assert (HA : A = []).
+          { apply (chain_noTBa _ _ _ _ C). pose proof g_baf0 as Bf. cbn [baf] in Bf.
+            apply andb_true_iff in Bf. destruct Bf as [E _]. apply negb_true_iff in E. exact E. }
+          subst A.
           inversion Hq; subst p' tg'; clear Hq.
           destruct (deliver_bind_fact _ _ _ D) as [Hm [Hpop Hw]].
           rewrite HN in *. cbn [app] in *.
@@ -818,7 +871,8 @@ Section Step.
           exists [], []. cbn [wn wr chN chR]. cbn [lastm] in g_last0. cbn [wsim] in g_watch0.
           constructor; try assumption; try (rewrite <- Hp; assumption); try (rewrite Hm; assumption);
             try (rewrite Hw; assumption); try reflexivity;
-            try (intros x _ []); try (eapply trok_tail; eassumption).
+            try (intros x _ []); try (eapply trok_tail; eassumption); try (intros _; reflexivity);
+            try (eapply baf_tail; eassumption).
         * (* answering bind: its controller is the oldest pending one *)
           destruct (deliver_bind_fact _ _ _ D) as [Hm [Hpop Hw]].
           cbn [app] in *.
@@ -836,7 +890,6 @@ Section Step.
           -- rewrite Hm. intros x Hx Hin. apply Hi in Hx. destruct Hx as [<- | Hx].
              ++ contradiction.
              ++ apply (g_disj0 x Hx). right. exact Hin.
-          -- intro E. assert (HF : id :: A' ++ chN w = []) by (apply g_quiet0; cbn; exact E). discriminate.
   Qed.
 End Step.
 
@@ -877,14 +930,14 @@ Definition ccids (evs : list event) : list Z :=
 Lemma G_run : forall U ports, (length U <= 32)%nat ->
   forall evs w pend tg tr fin,
   G U w pend tg -> Forall (ev_ok U) evs ->
-  run ports w evs = (tr, fin) -> quiescent_from pend tg evs tr = true ->
+  run ports w evs = (tr, fin) -> nocross_from pend tg evs tr = true ->
   fresh_run ports w evs.
 Proof.
   intros U ports US. induction evs as [| e es IH]; intros w pend tg tr fin HG Hev Hr Hq; [exact Logic.I |].
   cbn [fresh_run]. split; [eapply G_pre; eassumption |].
   cbn [run] in Hr. destruct (step ports w e) as [[w' o] |] eqn:S; [| exact Logic.I].
   destruct (run ports w' es) as [tr' fin'] eqn:R. inversion Hr; subst tr fin; clear Hr.
-  rewrite quiescent_from_step in Hq.
+  rewrite nocross_from_step in Hq.
   destruct (qstep pend tg e o) as [[p' tg'] |] eqn:Q; [| discriminate].
   inversion Hev; subst.
   destruct (G_step U US ports _ _ _ _ _ _ _ _ HG H1 S Q) as [_ HG'].
@@ -902,13 +955,13 @@ Proof.
   - apply IH; [intros x Hx; apply Hi; right; exact Hx | assumption].
 Qed.
 
-(* In a quiescent history over at most 32 distinct controllers: whenever a
+(* In a nocross history over at most 32 distinct controllers: whenever a
    midi-use-CC <id> is delivered to the non-realtime side, an address is
    queued and id occurs in no entry of the current snapshot; no snapshot on
    either side ever holds a controller twice. *)
-Theorem quiescent_fresh : forall ports evs tr fin U,
+Theorem nocross_fresh : forall ports evs tr fin U,
   (length U <= 32)%nat -> incl (ccids evs) U -> Forall (fun x => 0 <= x) (ccids evs) ->
-  run ports world0 evs = (tr, fin) -> quiescent evs tr = true ->
+  run ports world0 evs = (tr, fin) -> nocross evs tr = true ->
   fresh_run ports world0 evs.
 Proof.
   intros ports evs tr fin U US Hi Hp Hr Hq.
@@ -919,10 +972,10 @@ Qed.
 
 (* the hypotheses are satisfiable by a history with two learns, a fine
    controller and an unMap *)
-Lemma quiescent_fresh_nonvacuous :
+Lemma nocross_fresh_nonvacuous :
   exists ports evs tr fin U,
     (length U <= 32)%nat /\ incl (ccids evs) U /\ Forall (fun x => 0 <= x) (ccids evs) /\
-    run ports world0 evs = (tr, Some fin) /\ quiescent evs tr = true /\
+    run ports world0 evs = (tr, Some fin) /\ nocross evs tr = true /\
     assigned_targets 5 tr = [(1, true)] /\ assigned_targets 6 tr = [(1, false)].
 Proof.
   exists [ {| pint := true;  pmin := (0, 0);  pmax := (127, 0) |};
